@@ -66,7 +66,7 @@ package tabula
 //@ func (*Extractor) Text results (out, warns, err)
 //@   property C10, C11
 //@   flags nosafety, releases
-//@   callsite FilterFragments(pi, fr, h) requires pi == pd.index && sameseq(fr, pd.fragments)
+//@   callsite FilterFragments(pi, fr, h) requires pi == pd.index && sameseq(fr, pd.fragments) && h == pd.page.Height()
 //@   loop 0:
 //@     invariant len(requestedPages) == $i && forall k int :: {requestedPages[k]} 0 <= k && k < $i ==> requestedPages[k].index == pageIndices[k]
 //@   loop 1:
@@ -82,11 +82,11 @@ package tabula
 //@ func (*Extractor) Lines
 //@   property C10, C11
 //@   flags nosafety, releases
-//@   callsite FilterFragments(pi, fr, h) requires pi == pd.index && sameseq(fr, pd.fragments)
+//@   callsite FilterFragments(pi, fr, h) requires pi == pd.index && sameseq(fr, pd.fragments) && h == pd.page.Height()
 //@ func (*Extractor) Paragraphs
 //@   property C10, C11
 //@   flags nosafety, releases
-//@   callsite FilterFragments(pi, fr, h) requires pi == pd.index && sameseq(fr, pd.fragments)
+//@   callsite FilterFragments(pi, fr, h) requires pi == pd.index && sameseq(fr, pd.fragments) && h == pd.page.Height()
 //@ func (*Extractor) ReadingOrder
 //@   property C10
 //@   flags frameonly, releases
